@@ -70,6 +70,10 @@ def known_classifier(call, func):
 
 def run(rep, tier, only=None):
     root = snapshot.activate()
+    if not only or 'codeobj' in only:
+        run_codeobj(rep, tier)
+        if only and 'codeobj' in only:
+            return
     src = open(os.path.join(root, 'Cython/Compiler/LineTable.py')).read()
     hsrc = open('/verif/vf/pyast/h_c44_src.py').read()
     rep.functions += ['Cython/Compiler/LineTable.py (AST of the working tree): build_line_table, encode_single_position, '
@@ -134,6 +138,41 @@ def run(rep, tier, only=None):
     # ---- secondary: CrossHair counterexample search on the byte-level harness (not mandatory) ----
     T = 20 if tier == 'quick' else 120
     runner.run_conditions(rep, H, [Cond('check_rt2', T, mandatory=False), Cond('check_rt2_single_line', T, mandatory=False)])
+
+
+def run_codeobj(rep, tier):
+    """first-line / argument-count bit-fields of the code object descriptions (PYSYM)"""
+    import shutil
+    import concurrent.futures as cf
+    HC = '/verif/vf/pysym/h_codeobj.py'
+    d = snapshot.scratch_dir('c44co')
+    shutil.copy(HC, os.path.join(d, 'h_codeobj.py'))
+    specs = []
+    for g1 in (0, 1):
+        for two in (0, 1):
+            specs.append(('codeobj_lines_g%d_n%d' % (g1, two + 1), 'l1: int, l2: int, g2: int', '0 <= l1 < 14 and 0 <= l2 < %d and 0 <= g2 < %d' % ((14, 2) if two else (1, 1)),
+                          'B.check_lines(l1, %d, %d, l2, g2)' % (g1, two)))
+    for a1 in range(4):
+        for k1 in range(3):
+            specs.append(('codeobj_args_a%d_k%d' % (a1, k1), 'p1: int, g1: int, two: int, a2: int, k2: int, g2: int',
+                          '0 <= p1 <= %d and 0 <= g1 < 2 and 0 <= two < 2 and 0 <= a2 < 4 and 0 <= k2 < 3 and 0 <= g2 < 2' % a1, 'B.check_args(%d, %d, p1, g1, two, a2, k2, g2)' % (a1, k1)))
+    specs += [('codeobj_locals', 'v1: int, two: int, v2: int, g2: int', '0 <= v1 < 9 and 0 <= two < 2 and 0 <= v2 < 9 and 0 <= g2 < 2', 'B.check_locals(v1, two, v2, g2)'),
+              ('codeobj_flags', 's1: int, ss1: int, kind1: int, g1: int, two: int', '0 <= s1 < 2 and 0 <= ss1 < 2 and 0 <= kind1 < 4 and 0 <= g1 < 2 and 0 <= two < 2', 'B.check_flags(s1, ss1, kind1, g1, two)')]
+    files = []
+    for nm, params, pre, call in specs:
+        M = ['import h_codeobj as B', '', 'def %s(%s) -> bool:' % (nm, params), '    """', '    pre: ' + pre, '    post: _ == True', '    """', '    return ' + call, '']
+        if not files:
+            M += ['def twin(l1: int) -> bool:', '    """', '    pre: 0 <= l1 < 14', '    post: _ == True', '    """', '    return B.twin(l1)', '']
+        f = os.path.join(d, 'g_%s.py' % nm)
+        open(f, 'w').write('\n'.join(M))
+        files.append((f, nm))
+    rep.functions += ['Cython/Compiler/Code.py: GlobalState.generate_codeobject_constants; Cython/Compiler/ExprNodes.py: CodeObjectNode.generate_codeobj (on stand-in function nodes)']
+    rep.bounds += ['code object descriptions of 1..2 functions: first lines out of {1, 2, 3, 4, 7, 8, 15, 16, 255, 256, 1023, 1024, 65535, 65536}, 0..3 positional and 0..2 keyword-only '
+                   'arguments, 0..a positional-only, 0..8 locals, *args/**kw, plain/generator/coroutine/async generator, generator expression or not; selectors symbolic, one field group per '
+                   'condition: every initialiser fits the bit-field declared for it and is the value of its own function']
+    runner.run_twin(rep, files[0][0], 'twin', 120, extra_path=[d])
+    with cf.ThreadPoolExecutor(max_workers=16) as ex:
+        list(ex.map(lambda fn: runner.run_conditions(rep, fn[0], [Cond(fn[1], 1500)], jobs=1, extra_path=[d]), files))
 
 
 def _step(rep, src, hsrc, sum_varint, token_value):
